@@ -2,6 +2,10 @@ import EmmyVerif.Lemmas.IndexDb
 import EmmyVerif.Lemmas.IndexModule
 import EmmyVerif.Lemmas.IndexModuleKeys
 import EmmyVerif.Lemmas.IndexSym
+import EmmyVerif.Lemmas.IndexSymOper
+import EmmyVerif.Lemmas.IndexSymMember
+import EmmyVerif.Lemmas.IndexDbProp
+import EmmyVerif.Lemmas.IndexSymCache
 /-!
 # C10 — Removed files leave no trace
 
@@ -151,6 +155,24 @@ theorem C10_property_remove_partial (d : Db) (f : File) (h : aget d.propInFile f
     (remove d f).props = d.props ∧ (remove d f).propOwners = d.propOwners := by
   simp [remove, removeProps, h]
 
+/-- **C10 for the whole modelled `DbIndex`, outside the open finding** (`C10_full_partial`). For every history
+in which each documented owner gets its doc properties from one file only (`privateOwners`, decidable — the exact
+complement, inside the model, of the `type-in-several-files/doc-property` finding), `remove f` leaves exactly the state
+the other files' mutations build, on every modelled map: per-file, keyed, nested, id-owned, and `get_property` of every
+owner. -/
+theorem C10_full_partial (ms : List FMut) (f : File) (hp : privateOwners ms = true) :
+    let s' := remove (build ms) f
+    let t := build (ms.filter fun m => m.1 ≠ f)
+    (∀ k, aget s'.perFile k = aget t.perFile k) ∧ (∀ k, aget s'.keyed k = aget t.keyed k) ∧
+    (∀ k, aget s'.nested k = aget t.nested k) ∧ (∀ k, aget s'.owned k = aget t.owned k) ∧
+    (∀ o, getProp s' o = getProp t o) :=
+  ⟨perFile_remove_exact ms f, keyed_remove_exact ms f, nested_remove_exact ms f, owned_remove_exact ms f,
+   prop_remove_exact ms f hp⟩
+
+/-- the hypothesis is satisfiable on a history with several files, and fails exactly on the finding's witness -/
+example : privateOwners [(1, .prop 0 0 7), (1, .prop 0 1 8), (2, .prop 1 0 9), (2, .keyed 0 5 2)] = true := by decide
+example : privateOwners propWitness = false := by decide
+
 /-! Non-vacuity (tests). -/
 example : aget (build [(1, .keyed 0 5 1), (2, .keyed 0 5 2), (1, .keyed 0 6 3)]).keyed (0, 5) = some [(1, 1), (2, 2)] := by decide
 example : aget (remove (build [(1, .keyed 0 5 1), (2, .keyed 0 5 2), (1, .keyed 0 6 3)]) 1).keyed (0, 5) = some [(2, 2)] := by decide
@@ -165,6 +187,47 @@ indexes) the metatable map has no entry of `f` and every other entry unchanged. 
 theorem C10_metatable_remove_exact (s : S) (f : File) (k : File × Nat) :
     aget (remove s f).metatables k = if k.1 = f then none else aget s.metatables k :=
   metatables_remove s f k
+
+/-- **C10 type index: declaration locations, `remove_exact`** (the partial-class case). After `remove f` the
+locations of every type are exactly those the other files' `add_type_decl` calls build: a type declared only in `f` is
+gone; a type declared in several files keeps exactly the other files' locations, in order. -/
+theorem C10_type_locations_remove_exact (ms : List Mut) (f : File) (t : TId) :
+    aget (remove (build ms) f).decls t = aget (build (ms.filter fun m => typeMutFile m ≠ some f)).decls t :=
+  decls_remove_exact ms f t
+
+/-- **C10 type index: super types, `remove_exact`**, when `f` adds super types only to types it declares (what
+`---@class T: S` does). Removing one declaring file of a partial class keeps the other files' supers exactly — neither
+dropping them nor leaving `f`'s behind. -/
+theorem C10_type_supers_remove_exact (ms : List Mut) (f : File) (t : TId)
+    (hdecl : ∀ v, (f, v) ∈ sups ms t → t ∈ ftypes ms f) :
+    aget (remove (build ms) f).supers t = aget (build (ms.filter fun m => typeMutFile m ≠ some f)).supers t :=
+  supers_remove_exact ms f t hdecl
+
+/-- **C10 operator index: `remove_exact`** for the `operators` map. -/
+theorem C10_operators_remove_exact (ms : List Mut) (f : File) (id : File × Nat) :
+    aget (remove (build ms) f).operators id = aget (build (ms.filter fun m => operMutFile m ≠ some f)).operators id :=
+  operators_remove_exact ms f id
+
+/-- **C10 member index: `remove_exact`** for the `members` map (whatever `set_member_owner` / `add_member_to_owner`
+calls other files made): no member of `f` is left, every other member is unchanged. The owner maps are NOT exact in
+general (see the two witnesses below); they are covered by the tie and the oracle. -/
+theorem C10_members_remove_exact (ms : List Mut) (f : File) (id : MId) :
+    aget (remove (build ms) f).members id = aget (build (ms.filter fun m => memberMutFile m ≠ some f)).members id :=
+  members_remove_exact ms f id
+
+/-- **C10 type cache: `remove_exact`** (`LuaTypeIndex::types` with `in_filed_type_owner`; the first `bind_type` of an
+owner wins): after `remove f` no cached type of an owner in `f` is left and every other owner's cached type is what
+the other files' bindings build. -/
+theorem C10_type_cache_remove_exact (ms : List Mut) (f : File) (k : File × Nat) :
+    aget (remove (build ms) f).typeCache k = aget (build (ms.filter fun m => bindMutFile m ≠ some f)).typeCache k :=
+  cache_remove_exact ms f k
+
+/-- the partial-class scenario of the seeded `LuaTypeIndex::remove` change, inside the model -/
+example :
+    let ms : List Mut := [.tdecl 0 7 1, .tdecl 1 7 2, .tsuper 1 7 9]
+    aget (update (build ms) 1 [.tdecl 1 7 2, .tsuper 1 7 9]).supers 7 = some [(1, 9)] ∧
+    aget (remove (build ms) 1).supers 7 = none ∧
+    aget (remove (build ms) 1).decls 7 = some [(0, 1)] := by decide
 
 /-- **Witness (open finding `class-bound-to-required-table`).** File 0 defines member (0,1) of its table; the
 analysis of file 1 re-owns it to class `T1` (`set_member_owner` + `add_member_to_owner`, both registered under
